@@ -26,7 +26,7 @@ RULE_T = ('Model-based histories: a pool of %d fixed module configurations (ever
         'result bitwise equal to the golden; module buffers/parameters bitwise unchanged; tensors returned by the last three calls still hold their values. The interpreter running a shard is never '
         'restarted, so state also carries over between histories. Non-trivial history = >= 2 different shapes through one '
         'instance and >= 2 configurations interleaved. Distinct = operation sequence.')
-ASSUMPTIONS = ['CPU kernels are bitwise deterministic across processes and threads (measured); a mismatch within 4 ulp is counted '
+ASSUMPTIONS = ['CPU kernels are bitwise deterministic across processes and threads (measured); a mismatch within 64 ulp of the largest value is counted '
                'as ulp_diff, not failed', 'thread schedules are not controlled: concurrency is stressed, not explored']
 STRATA = {'thorough': 'every pool configuration (with its twin) is owned by some unit, on all 3 inputs', 'quick': ''}
 LABEL_FLOORS = {}
@@ -196,7 +196,7 @@ def _same(outs, gold, r, what):
             d = np.abs(a.astype(np.float64) - g.astype(np.float64))
             scale = max(float(np.abs(g).max()), 1e-300)
             eps = core.EPS32 if a.dtype == np.float32 else core.EPS64
-            if np.all(np.isfinite(d)) and d.max() <= 4 * eps * scale:
+            if np.all(np.isfinite(d)) and d.max() <= 64 * eps * scale:
                 r.label('ulp_diff')
                 continue
             r.fail('history_dependence', '%s: output %d differs from the fresh-interpreter golden by %.3g (scale %.3g)' %
